@@ -190,8 +190,14 @@ def run(fb, rep, tier):
         fields = [f['n'] for f in rec['fields']]
         for fl in fields:
             if fl not in rows:
-                rep.ob('C09.0', 'table completeness', '%s::%s has a discipline row' % (cls, fl), False, '%s:%s' % (rec['file'], rec['line']),
-                       'new shared field without a declared discipline (mutex / atomic / confined / published)', cls)
+                frec0 = next(f for f in rec['fields'] if f['n'] == fl)
+                ct0 = (frec0.get('ct') or '').replace('volatile ', '')
+                # a field whose type already is its discipline needs no row: atomics, the relaxed-atomic wrapper, the
+                # synchronisation objects themselves, and constants
+                by_type = ct0.startswith(('std::atomic', 'RelaxedShared', 'std::mutex', 'std::condition_variable', 'const ')) and not ct0.endswith('*')
+                rep.ob('C09.0', 'table completeness', '%s::%s has a discipline row (or a type that is its own discipline: atomic / mutex / const)' % (cls, fl), by_type,
+                       '%s:%s' % (rec['file'], rec['line']),
+                       ('type %s' % ct0) if by_type else 'new shared field without a declared discipline (mutex / atomic / confined / published)', cls)
         for fl, (kind, arg) in sorted(rows.items()):
             if fl not in fields:
                 rep.broken('C09.0', 'table row %s::%s names a field that no longer exists' % (cls, fl))
